@@ -22,6 +22,8 @@
 (*               registers a, b                                            *)
 (*       "dw"    4-byte data word holding f(t, n)                          *)
 (*       "align" align n      "data" n literal bytes      "gap" n bytes    *)
+(*       "raw"   a data directive given as source text m with the bytes bs  *)
+(*               AsmData says it must emit (items of other kinds: bs = <<>>)*)
 (*       "const" constant definition t = n (emits nothing)                  *)
 (*       "brk"   branch m rs1=a rs2=b / "jalk" jal rd=a to the ABSOLUTE     *)
 (*               address given by constant t (= n): `beq x8, x0, K`         *)
@@ -205,6 +207,8 @@ ItemFails(prog, obs, off, i) ==
     [] it.k = "align" ->
          (IF sz < it.n /\ (pos + sz) % it.n = 0 THEN {} ELSE {"AlignMinimal"}) \cup
          (IF \A j \in 1..Len(obs.rle[i]) : obs.rle[i][j][1] = 0 THEN {} ELSE {"AlignZeros"})
+    [] it.k = "raw" ->
+         IF sz = Len(it.bs) /\ RleBytes(obs.rle[i]) = it.bs THEN {} ELSE {"DataBytesExact"}
     [] it.k \in {"data", "gap"} ->
          LET b == IF it.k = "data" THEN 90 ELSE 170 IN
          IF sz = it.n /\ (it.n = 0 \/ obs.rle[i] = << <<b, it.n>> >>) THEN {} ELSE {"DataUnchanged"}
